@@ -150,6 +150,29 @@ class PGen(object):
         self.items = items  # python list or SSeq
 
 
+class PText(object):
+    """An immutable text abstracted as its length and an uninterpreted code-point function (linear integer arithmetic +
+    UF instead of the string theory).  Supports len() and indexing; an index yields an SChar."""
+
+    def __init__(self, name):
+        self.name = name
+        self.n = z3.FreshConst(z3.IntSort(), name + '_len')
+        self.ch = z3.Function(name + '_cp', z3.IntSort(), z3.IntSort())
+        self.entry_facts = [self.n >= 0]
+
+
+class SChar(Sym):
+    """A one-character string given by its code point term."""
+    pass
+
+
+class PLazy(object):
+    """A field whose (arbitrary) value is chosen on first read: thunk(engine) -> value."""
+
+    def __init__(self, thunk):
+        self.thunk = thunk
+
+
 class PAbsSeq(object):
     """Input sequence abstracted by its length and uninterpreted element functions: element i is a tuple of
     length kind(i) (one of `kinds`) whose j-th component is f_j(i).  Reading the same index twice gives the same
@@ -382,7 +405,7 @@ class Helper(object):
 
 class Loop(object):
     def __init__(self, inv=(), variant=None, types=None, index=None, label=None, ghost_pre=None,
-                 ghost_step=None):
+                 ghost_step=None, modifies=()):
         self.inv = list(inv)
         self.variant = variant
         self.types = dict(types or {})
@@ -390,6 +413,7 @@ class Loop(object):
         self.label = label
         self.ghost_pre = ghost_pre or []    # statements (python source) run before the loop on ghost vars
         self.ghost_step = ghost_step or []  # ghost statements run at the end of each iteration
+        self.modifies = tuple(modifies)     # names whose objects are changed by calls in the body (not visible syntactically)
 
 
 class Contract(object):
@@ -511,8 +535,9 @@ class Engine(object):
             s.pop()
         return r != z3.unsat
 
-    def decide(self, cond):
-        """Branch on a z3 Bool.  Returns the python bool taken on this path."""
+    def decide(self, cond, free=False):
+        """Branch on a z3 Bool.  Returns the python bool taken on this path.  `free`: cond is a fresh constant, so both
+        branches are feasible whenever the path is (no solver call needed)."""
         if isinstance(cond, bool):
             return cond
         sc = z3.simplify(cond)
@@ -525,8 +550,8 @@ class Engine(object):
             self.pos += 1
             self.pc.append(cond if d else z3.Not(cond))
             return d
-        t_ok = self.feasible(cond)
-        f_ok = self.feasible(z3.Not(cond))
+        t_ok = True if free else self.feasible(cond)
+        f_ok = True if free else self.feasible(z3.Not(cond))
         if not t_ok and not f_ok:
             raise PathEnd()
         if t_ok and f_ok:
@@ -540,7 +565,7 @@ class Engine(object):
     def decide_free(self, label):
         """Non-deterministic choice (e.g. 'this external call raises')."""
         b = z3.FreshConst(z3.BoolSort(), label)
-        return self.decide(b)
+        return self.decide(b, free=True)
 
     def assume(self, cond):
         if isinstance(cond, bool):
@@ -608,7 +633,17 @@ class Engine(object):
         return self.decide(self.truth(v))
 
     def fresh(self, ty, name):
+        if isinstance(ty, OneOf):
+            opts = list(ty.alts)
+            for o in opts[:-1]:
+                if self.decide_free('oneof_' + name):
+                    return self.fresh(o, name)
+            return self.fresh(opts[-1], name)
+        if isinstance(ty, Const):
+            return ty.value
         if callable(getattr(ty, 'make', None)):
+            if getattr(ty, 'wants_engine', False):
+                return ty.make(name, self)
             return ty.make(name)
         if isinstance(ty, ListOf):
             v = ty.seq.fresh(name)
@@ -1081,6 +1116,8 @@ class Engine(object):
                     obj.val = ty.havoc_list(self, '%s_%s' % (name, tag))
                 else:
                     obj.val = ty.seq.fresh('%s_%s' % (name, tag))
+            elif isinstance(obj, PObj) and callable(getattr(L.types.get(name), 'havoc_obj', None)):
+                L.types[name].havoc_obj(self, obj, '%s_%s' % (name, tag))
             elif isinstance(obj, PObj):
                 fields = L.types.get(name)
                 if not isinstance(fields, dict):
@@ -1107,6 +1144,7 @@ class Engine(object):
             a2, m2 = self.written_names(ast.parse(g).body)
             assigned |= a2
             mutated |= m2
+        mutated |= set(L.modifies)
         self.havoc(assigned, mutated, L, frame, 'l%d' % k)
         for inv in L.inv:
             self.assume(self.coerce(self.ev_spec(inv, frame), Bool))
@@ -1180,6 +1218,7 @@ class Engine(object):
         for x in ast.walk(s.target):
             if isinstance(x, ast.Name):
                 assigned.discard(x.id)
+        mutated |= set(L.modifies)
         self.havoc(assigned, mutated, L, frame, 'l%d' % k)
         kv = SInt(z3.FreshConst(z3.IntSort(), idx))
         frame.store(idx, kv)
@@ -1636,6 +1675,19 @@ class Engine(object):
         if k in ('Eq', 'NotEq') and (isinstance(a, (PObj, PExt)) or isinstance(b, (PObj, PExt))):
             r = a is b
             return r if k == 'Eq' else (not r)
+        if k in ('Eq', 'NotEq') and (isinstance(a, SChar) or isinstance(b, SChar)):
+            def cp(x):
+                if isinstance(x, SChar):
+                    return x.t
+                if isinstance(x, str) and len(x) == 1:
+                    return z3.IntVal(ord(x))
+                return None
+            ca, cb = cp(a), cp(b)
+            if ca is None or cb is None:
+                if isinstance(a, str) or isinstance(b, str):
+                    return k == 'NotEq'       # a one-character string never equals a string of another length
+                raise Unsupported('comparison of a character with %r' % ((b if isinstance(a, SChar) else a),))
+            return SBool(ca == cb if k == 'Eq' else ca != cb)
         if k in ('In', 'NotIn'):
             r = self.contains(b, a)
             if k == 'In':
@@ -1763,6 +1815,9 @@ class Engine(object):
             if not parts:
                 return False
             return SBool(z3.Or(*parts))
+        if isinstance(container, str) and isinstance(x, SChar):
+            cps = sorted(set(ord(c_) for c_ in container))
+            return SBool(z3.Or(*[x.t == c_ for c_ in cps])) if cps else False
         if isinstance(container, str) and isinstance(x, SStr):
             return SBool(z3.Contains(z3.StringVal(container), x.t))
         if isinstance(container, SStr):
@@ -1775,6 +1830,19 @@ class Engine(object):
     def subscript(self, obj, idx, node=None):
         if isinstance(obj, PGen) and getattr(self, 'in_spec', False):
             obj = PList(obj.items) if isinstance(obj.items, list) else obj.items
+        if isinstance(obj, PText):
+            ti = Int.unwrap(idx)
+            inb = z3.And(ti >= -obj.n, ti < obj.n)
+            if self.c.hints.get('index_raises') and not getattr(self, 'in_spec', False):
+                if not self.decide(inb):
+                    raise PyRaise(PExc(IndexError, tag='str'))
+            elif not getattr(self, 'in_spec', False):
+                self.oblige('%s.index@%s' % (self.c.funcname, self.rel(node)), inb, 'safety')
+            i = z3.If(ti >= 0, ti, ti + obj.n)
+            i = z3.simplify(i)
+            cp = obj.ch(i)
+            self.assume(z3.And(cp >= 0, cp < 0x110000))
+            return SChar(cp)
         if isinstance(obj, PList) and isinstance(obj.val, FoldAbs):
             fa = obj.val
             if is_sym(idx) or idx != -1:
@@ -1812,8 +1880,13 @@ class Engine(object):
         if isinstance(obj, SStr):
             n = z3.Length(obj.t)
             ti = Int.unwrap(idx)
-            self.oblige('%s.index@%s' % (self.c.funcname, self.rel(node)),
-                        z3.And(ti >= -n, ti < n), 'safety')
+            if self.c.hints.get('index_raises') and not getattr(self, 'in_spec', False):
+                # the code relies on IndexError: out-of-range is a path of its own, not an obligation
+                if not self.decide(z3.And(ti >= -n, ti < n)):
+                    raise PyRaise(PExc(IndexError, tag='str'))
+            else:
+                self.oblige('%s.index@%s' % (self.c.funcname, self.rel(node)),
+                            z3.And(ti >= -n, ti < n), 'safety')
             i = z3.If(ti >= 0, ti, ti + n)
             return SStr(z3.SubString(obj.t, i, 1))
         if isinstance(obj, PMap):
@@ -1955,7 +2028,12 @@ class Engine(object):
     def getattr(self, obj, name):
         if isinstance(obj, PObj):
             if name in obj.fields:
-                return obj.fields[name]
+                v = obj.fields[name]
+                if isinstance(v, PLazy):
+                    # havoc'd state is materialised (and its cases split) only when the code looks at it
+                    v = v.thunk(self)
+                    obj.fields[name] = v
+                return v
             if name == '__class__':
                 return obj.cls
             cls = obj.cls
@@ -2459,6 +2537,10 @@ class Engine(object):
         raise Unsupported('call of %r (no contract, no model)' % (fn,))
 
     def builtin_len(self, v):
+        if isinstance(v, PText):
+            return SInt(v.n)
+        if isinstance(v, SChar):
+            return 1
         if isinstance(v, PAbsSeq):
             return SInt(v.n)
         if isinstance(v, PList) and isinstance(v.val, FoldAbs):
